@@ -615,14 +615,15 @@ Proof.
   - apply (wl_store s s' L HL). reflexivity.
 Qed.
 
+Lemma sweep_t_slot_empty f s slot nowv due : wheel_get (twheel s) slot = [] -> sweep_t_slot f s slot nowv due = (s, due).
+Proof. intros H. destruct f; cbn [sweep_t_slot]; [reflexivity|rewrite H; reflexivity]. Qed.
+
 Lemma sweep_t_secs_idle nowv n : forall s t, twheel s = [] -> tlong s = [] -> sweep_t_secs n s t nowv = (s, []).
 Proof.
   induction n as [|n IH]; intros s t Hw Hl; [reflexivity|].
   cbn [sweep_t_secs]. unfold collect_timeouts.
-  assert (E : sweep_t_slot (10 * length (wheel_get (twheel s) (slot_of t)) + 10) s (slot_of t) nowv [] = (s, [])).
-  { rewrite Hw. change (wheel_get [] (slot_of t)) with (@nil ref). cbn [length Nat.mul Nat.add sweep_t_slot].
-    rewrite Hw. reflexivity. }
-  rewrite E, Hl. cbn [aget fire_all]. rewrite (IH s (t + 1)%Z Hw Hl). reflexivity.
+  rewrite (sweep_t_slot_empty _ s (slot_of t) nowv []) by (rewrite Hw; reflexivity).
+  rewrite Hl. cbn [aget fire_all]. rewrite (IH s (t + 1)%Z Hw Hl). reflexivity.
 Qed.
 
 Lemma sweep_t_ok s L : WS s -> WL s L -> exists s', step s ASweepT = (s', []) /\ astep s L s' [].
@@ -660,4 +661,57 @@ Proof.
   - exists (s <| now := (now s + k)%Z |>), []. split; [reflexivity|]. apply advance_ok; assumption.
   - destruct (sweep_t_ok s L H HL) as (s' & P & A). exists s', []. split; [exact P|exact A].
   - apply sweep_e_ok; auto. lia.
+Qed.
+
+(* ------------------------------------------------------------------ runs *)
+Definition sub_hist (acts : list action) : Prop :=
+  Forall sub_action acts /\ N.of_nat (length acts) + 2 < B32.
+
+Lemma records_of_cons e es : records_of (e :: es) = aofs_of e ++ records_of es.
+Proof. reflexivity. Qed.
+
+Lemma run_ok acts : forall s L,
+  WS s -> WL s L -> Forall sub_action acts -> next s + N.of_nat (length acts) + 1 < B32 ->
+  exists s' tr, run s acts = (s', tr) /\
+    WS s' /\ WL s' (fold_left lstep (records_of tr) L) /\ wb L (records_of tr) /\
+    Forall (fun r => (a_ctime r <= now s')%Z) (records_of tr) /\ (now s <= now s')%Z.
+Proof.
+  induction acts as [|a acts IH]; intros s L H HL Hsub Hb.
+  - exists s, []. split; [reflexivity|]. cbn. csplit; auto. lia.
+  - inversion Hsub as [|? ? Ha Hrest]; subst. cbn [run].
+    destruct (action_ok s L a H HL Ha) as (s1 & e1 & P1 & [A1 A2 A3 A4 A5 A6]).
+    { cbn [length] in Hb. lia. }
+    rewrite P1.
+    destruct (IH s1 (fold_left lstep (aofs_of e1) L) A1 A2 Hrest) as (s2 & tr & P2 & B1 & B2 & B3 & B4 & B5).
+    { cbn [length] in Hb. lia. }
+    rewrite P2. exists s2, (e1 :: tr). split; [reflexivity|]. rewrite records_of_cons.
+    split; [exact B1|]. split; [rewrite fold_left_app; exact B2|]. split; [apply wb_app; split; assumption|].
+    split; [|lia]. apply Forall_app. split; [|exact B4].
+    eapply Forall_impl; [|exact A4]. cbn. intros r Hr. lia.
+Qed.
+
+Lemma ws_init t0 aoft : (0 <= t0)%Z -> WS (init_db t0 aoft) /\ WL (init_db t0 aoft) [].
+Proof.
+  intros Ht. split.
+  - split; try reflexivity.
+    + split; cbn; try (intros; discriminate). constructor.
+    + cbn. lia.
+    + exact Ht.
+    + split; cbn; intros; discriminate.
+    + cbn. intros; discriminate.
+  - split; unfold pheld; cbn; intros; try discriminate. destruct H as (X & _). discriminate.
+Qed.
+
+(* Writer-side theorem: along every history of the sub-language the record stream is well bracketed, every record was
+   written at or before the final time, and its ledger lists exactly the persisted holds of the final state. *)
+Theorem sim_writer t0 aoft acts :
+  (0 <= t0)%Z -> sub_hist acts ->
+  exists s tr, run (init_db t0 aoft) acts = (s, tr) /\
+    WS s /\ WL s (ledger_of (records_of tr)) /\ wb [] (records_of tr) /\
+    Forall (fun r => (a_ctime r <= now s)%Z) (records_of tr).
+Proof.
+  intros Ht [Hsub Hlen]. destruct (ws_init t0 aoft Ht) as [H0 HL0].
+  destruct (run_ok acts (init_db t0 aoft) [] H0 HL0 Hsub) as (s & tr & P & A & B & C & D & _).
+  { cbn [next init_db]. lia. }
+  exists s, tr. csplit; auto.
 Qed.
